@@ -115,6 +115,20 @@ def step (st : St) (line : String) : IO St := do
               IO.println s!"ORACLE C09 FMG interpolation does not reproduce a cubic in r at fine node ({i},{j}) (four-point radial rule): value {v} expected {expect} nrF={p.nrF} ntF={p.ntF} radiiF={st.radiiF.toList.take 12}"
               st := { st with oracleFails := st.oracleFails + 1 }
       return st
+    if kind == "cubic_t" then
+      -- C09 (theorem C09.fmg_cubic_theta on the model): on the coarse rows (even i) the FMG interpolation of samples of a cubic in theta
+      -- is the cubic at every coarse column and at every odd column whose four coarse neighbours j-3, j-1, j+1, j+3 do not wrap
+      let cubic (t : Rat) : Rat := 1 + t * (1 + t * (-2 + 3 * t))
+      for i in [0:p.nrF] do
+        if i % 2 == 0 then
+          for j in [0:p.ntF] do
+            if j % 2 == 0 ∨ (3 ≤ j ∧ j + 4 ≤ p.ntF) then
+              let expect := cubic (st.anglesF.getD j 0)
+              let v := out.getD (i * p.ntF + j) 0
+              if Hex.rabs (v - expect) > Hex.twoPowNeg 30 * (Hex.rabs expect + 1) ∧ st.oracleFails < 5 then
+                IO.println s!"ORACLE C09 FMG interpolation does not reproduce a cubic in theta at fine node ({i},{j}) (four-point angular rule, no wrap): value {v} expected {expect} nrF={p.nrF} ntF={p.ntF} anglesF={st.anglesF.toList.take 12}"
+                st := { st with oracleFails := st.oracleFails + 1 }
+      return st
     if kind == "linear_r" ∨ kind == "linear_t" then
       for i in [0:p.nrF] do
         for j in [0:p.ntF] do
